@@ -229,7 +229,8 @@ def parse_assumptions(out):
             res[cur] = set()
             mode = "ax"
         elif mode == "ax":
-            m = re.match(r"^([A-Za-z_][\w.']*)\s*:", line)
+            # an axiom entry starts at column 0 with its name; its `: type` may wrap onto the next line
+            m = re.match(r"^([A-Za-z_][\w.']*)\s*(:|$)", line)
             if m and not line.startswith(" "):
                 res[cur].add(m.group(1))
     return res
